@@ -24,7 +24,7 @@ ASSUMPTIONS = ["float64 CPU", "near-equilibrium closed-shell molecules with HOMO
                "the independent reference model (MNDO/AM1/PM3) or, for PM6_SP, by restarting a damped SCF 0.01 away from the state",
                "candidates the API flags not converged are counted, not compared",
                "KSA driven at T_el = 100 K (occupation smearing exp(-gap/2kT) < 1e-50)"]
-REQUIRED_MONITORS = ["candidates_compared", "sp2_candidates_compared", "uhf_candidates_compared",
+REQUIRED_MONITORS = ["batch_rows_compared", "batch_uhf_rows_compared", "candidates_compared", "sp2_candidates_compared", "uhf_candidates_compared",
                      "restart_candidates_compared", "ksa_candidates_compared", "monotonicity_pairs"]
 CASE_TIMEOUT = 600.0
 BUDGET_S = {"quick": 200, "thorough": 1700}
@@ -117,6 +117,21 @@ def gen_cases(tier, seed):
                               + [{"conv": [1], "eps": 1e-8, "sp2": 1e-7, "uhf": False, "start": "cold"},
                                  {"conv": [1], "eps": 1e-8, "sp2": None, "uhf": True, "start": "cold"},
                                  {"conv": [2], "eps": 1e-8, "sp2": None, "uhf": False, "start": "sequence"}]})
+    # batch family: heterogeneous zero-padded batches; every row against the SAME molecule run alone (tight Pulay RHF)
+    bcands = [{"conv": [1], "sp2": None, "uhf": False}, {"conv": [2], "sp2": None, "uhf": False},
+              {"conv": [1], "sp2": None, "uhf": True}, {"conv": [0, 0.3], "sp2": None, "uhf": True},
+              {"conv": [1], "sp2": 1e-7, "uhf": False}]
+    named = [(["CH4", "H2O", "HCN"], "AM1"), (["NH3", "HCN", "H2O"], "AM1"), (["CO", "CH4"], "PM3")]
+    nb = 1 if tier == "quick" else 24
+    batches = []
+    for i in range(nb):
+        method = METHODS[i % 4]
+        names = [n for n in gen.names_for(method, POOL) if len(gen.molecule(n)[0]) <= 6]
+        batches.append(([names[int(j)] for j in g.permutation(len(names))[: int(g.integers(3, 5))]], method))
+    for k, (names, method) in enumerate(named + batches):
+        cases.insert(1 + k, {"kind": "batch", "mols": [{"name": n, "gseed": int(g.integers(0, 2**31))} for n in names],
+                             "method": method, "sigma": float(_pick(g, [0.02, 0.05])), "pad": int(g.integers(0, 2)),
+                             "cands": [dict(c, eps=float(_pick(g, [1e-8, 1e-8, 1e-10, 1e-6]))) for c in bcands]})
     return cases
 
 
@@ -155,7 +170,171 @@ def _errors(out, ref, norb):
     return e
 
 
+def _run_batch(case):
+    """batch family: each row of a heterogeneous zero-padded batch, under RHF / UHF-singlet / SP2 candidates, against
+    the same molecule run alone (reference = tight Pulay RHF, cross-checked against fixed mixing; lower state wins)"""
+    import torch  # noqa: F401
+
+    from vlib import run, scfmon
+    from seqm.seqm_functions import scf_loop as sl
+
+    method = case["method"]
+    mon = {"batch_reference_runs": 0, "batch_candidates_run": 0, "batch_rows_compared": 0, "batch_uhf_rows_compared": 0,
+           "batch_sp2_rows_compared": 0, "batch_rows_not_converged": 0, "batch_rows_ineligible": 0, "candidates_raised": 0,
+           "failpoints_fired": 0, "uhf_broken_symmetry_below_rhf": 0, "batch_rows_other_stationary_point": 0,
+           "candidates_compared": 0, "uhf_candidates_compared": 0, "sp2_candidates_compared": 0, "get_error_calls": 0}
+    viol, margins, cells = [], {}, []
+
+    def upd(name, val, tol):
+        r = float(val) / tol
+        if not np.isfinite(r):
+            r = 1e300
+        if name not in margins or r > margins[name]:
+            margins[name] = r
+        return r > 1.0
+
+    mols, refs = [], []
+    for mm in case["mols"]:
+        Z, X, q, m = gen.molecule(mm["name"])
+        g0 = np.random.default_rng(mm["gseed"])
+        Xd = gen.distort(X, g0, sigma=case["sigma"])
+        Xd = Xd @ gen.generic_rotation(Xd, g0).T + g0.uniform(-3, 3, 3)
+        mols.append((Z, Xd, q))
+        rp = run.single_point(Z, Xd, run.settings(method, eps=1e-11, converger=(2,)), charges=q, mult=1)
+        rm = run.single_point(Z, Xd, run.settings(method, eps=1e-11, converger=(0, 0.3)), charges=q, mult=1)
+        mon["batch_reference_runs"] += 2
+        okp, okm = not bool(np.any(rp["notconverged"])), not bool(np.any(rm["notconverged"]))
+        ref = None
+        if okp and okm:
+            if abs(float(rp["Etot"][0]) - float(rm["Etot"][0])) <= DISTINCT_E:
+                ref = rp
+            else:   # the single-molecule family judges this event; here the lower state is simply the reference
+                lo = rp if rp["Etot"][0] < rm["Etot"][0] else rm
+                ref = run.single_point(Z, Xd, run.settings(method, eps=1e-11, converger=(2,)), charges=q, mult=1,
+                                       P0=np.array(lo["dm"], copy=True))
+                mon["batch_reference_runs"] += 1
+                if bool(np.any(ref["notconverged"])) or abs(float(ref["Etot"][0]) - float(lo["Etot"][0])) > 1e-6:
+                    ref = lo
+        elif okp or okm:
+            ref = rp if okp else rm
+        if ref is not None and not float(np.asarray(ref["gap"]).reshape(-1)[0]) >= GAP_MIN:
+            ref = None
+        if ref is None:
+            mon["batch_rows_ineligible"] += 1
+        refs.append(ref)
+    if not any(r is not None for r in refs):
+        return {"ineligible": "no eligible row in the batch", "monitors": mon}
+    S, C = gen.pad_batch([(Z, X) for Z, X, _ in mols], extra_pad=case.get("pad", 0))
+    charges = [float(q) for _, _, q in mols]
+    nrow = len(mols)
+    rhf_like = {}     # a restricted run of this batch (for rebuilding the restricted Fock matrix of a total density)
+
+    for c in case["cands"]:
+        sett = run.settings(method, eps=c["eps"], converger=tuple(c["conv"]), sp2=c.get("sp2"), uhf=bool(c.get("uhf")))
+        lw = scfmon.standard_watch(int(sl.MAX_ITER), {"SP2": 200}, 300, extra=False)
+        elog = scfmon.ErrorLog(c["eps"])
+        mon["batch_candidates_run"] += 1
+        out = None
+        try:
+            elog.install()
+            lw.install()
+            try:
+                out = run.single_point(S, C, sett, charges=charges, mult=[1.0] * nrow, keep=True)
+            except scfmon.FailPoint:
+                mon["failpoints_fired"] += 1
+            except Exception:
+                mon["candidates_raised"] += 1
+        finally:
+            lw.uninstall()
+            elog.uninstall()
+            mon["get_error_calls"] += elog.calls
+        if out is None:
+            continue
+        if not c.get("uhf") and not c.get("sp2") and c["conv"][0] == 1:
+            rhf_like["out"] = out
+        rho = elog.contraction()
+        flag = np.asarray(out["notconverged"]).astype(bool).reshape(-1)
+        grp = "sp2" if c.get("sp2") else ("uhf" if c.get("uhf") else "diag")
+        tag = "batch/%s/%s/%s/eps%g" % (method, _conv_tag(c["conv"]), grp, c["eps"])
+        for b in range(nrow):
+            ref = refs[b]
+            if ref is None:
+                continue
+            if flag[b]:
+                mon["batch_rows_not_converged"] += 1
+                continue
+            Z, Xd, q = mols[b]
+            norb = sum(4 if z > 1 else 1 for z in Z)
+            nat = len(Z)
+            em0 = np.asarray(ref["e_mo"][0])[:norb]
+            _, A, B = _bounds(dict(c, start="cold"), rho, float(em0.max() - em0.min()))
+            em = np.asarray(out["e_mo"][b])
+            err = {"E": abs(float(out["Etot"][b]) - float(ref["Etot"][0])),
+                   "F": float(np.abs(out["force"][b][:nat] - ref["force"][0][:nat]).max()),
+                   "q": float(np.abs(out["q"][b][:nat] - ref["q"][0][:nat]).max()),
+                   "emo": float(max(np.abs(em[0][:norb] - em0).max(), np.abs(em[1][:norb] - em0).max())) if em.ndim == 2
+                   else float(np.abs(em[:norb] - em0).max())}
+            dm = np.asarray(out["dm"][b])
+            detail = {"candidate": c, "row": b, "molecule": case["mols"][b]["name"], "batch": [mm["name"] for mm in case["mols"]],
+                      "species": S, "coords": C, "E_row": float(out["Etot"][b]), "E_alone": float(ref["Etot"][0]), "errors": err,
+                      "rho_observed": rho}
+            if err["E"] > max(DISTINCT_E, 100.0 * _bounds(dict(c, start="cold"), 0.98, 50.0, 0.98)[2]["E"]):
+                # another state?  outside the premise only when it is a genuine, explainable one
+                if dm.ndim == 3 and float(np.abs(dm[0] - dm[1]).max()) > 1e-6:
+                    if float(out["Etot"][b]) < float(ref["Etot"][0]) - DISTINCT_E:
+                        st = None
+                        try:
+                            st = scfmon.r1_singlet_stability(method, Z, Xd, np.asarray(ref["dm"][0]), triplet=True)
+                        except Exception:
+                            st = None
+                        if st is None or st[0] < -1e-3:   # symmetry-broken UHF below a triplet-unstable RHF state
+                            mon["uhf_broken_symmetry_below_rhf"] += 1
+                            continue
+                elif dm.ndim == 2 and c["conv"][0] == 2 and not c.get("sp2"):
+                    # Pulay row on another self-consistent stationary point (batch-coupled DIIS resets / cold-start DIIS)
+                    try:
+                        Pt = out["_mol"].dm.detach()
+                        Fk, Hk = scfmon.rebuild_fock(out["_mol"], Pt)
+                        nel = int(sum(gen.VALENCE[z] for z in Z) - q)
+                        r = scfmon.residuals(S[b], Pt.numpy()[b], Fk[b], Hk[b], nel, nel // 2, nel // 2, float(out["Eelec"][b]), out["q"][b], q)
+                        sc = (r["idempotency"] <= 1e-12 + 50.0 * c["eps"] and r["commutator"] <= 1e-10 + 5e3 * c["eps"]
+                              and r["reproduction"] <= 1e-10 + 300.0 * c["eps"] * max(1.0, 1.0 / max(r["gap"] or 1.0, 1e-3)))
+                    except Exception:
+                        sc = False
+                    if sc:
+                        mon["batch_rows_other_stationary_point"] += 1
+                        hi_is_out = float(out["Etot"][b]) > float(ref["Etot"][0])
+                        try:
+                            s_out = scfmon.r1_singlet_stability(method, Z, Xd, dm)
+                            s_ref = scfmon.r1_singlet_stability(method, Z, Xd, np.asarray(ref["dm"][0]))
+                        except Exception:
+                            s_out = s_ref = None
+                        detail["stability_row_lambda_min"] = None if s_out is None else s_out[0]
+                        detail["stability_alone_lambda_min"] = None if s_ref is None else s_ref[0]
+                        if s_out is not None and s_ref is not None and hi_is_out and s_out[0] < -1e-3 and s_ref[0] > 1e-3:
+                            viol.append({"clause": "converged-to-unstable-scf-solution",
+                                         "mech": "pulay-lands-on-other-scf-stationary-point", "detail": detail})
+                        continue     # two minima / undecided: outside the premise (counted above)
+            mon["batch_rows_compared"] += 1
+            mon["candidates_compared"] += 1
+            if c.get("uhf"):
+                mon["batch_uhf_rows_compared"] += 1
+                mon["uhf_candidates_compared"] += 1
+            if c.get("sp2"):
+                mon["batch_sp2_rows_compared"] += 1
+                mon["sp2_candidates_compared"] += 1
+            cells.append(tag + "/nrow%d" % nrow)
+            for k in ("E", "F", "q", "emo"):
+                if upd("batch_d%s/%s" % (k, grp), err[k], B[k]):
+                    viol.append({"clause": "batch-row-d" + k, "mech": None,
+                                 "detail": dict(detail, error=err[k], bound=B[k], ratio=err[k] / B[k], A=A)})
+    return {"nontrivial": mon["batch_rows_compared"] > 0, "violations": viol, "margins": margins, "monitors": mon, "cells": cells,
+            "obs": {"batch": [mm["name"] for mm in case["mols"]], "rows_compared": mon["batch_rows_compared"], "worst": margins}}
+
+
 def run_case(case):
+    if case.get("kind") == "batch":
+        return _run_batch(case)
     import torch
 
     from vlib import run, scfmon
